@@ -79,6 +79,9 @@ struct SessionCase {
     id: Value,
     docs: Vec<SVal>,
     queries: Vec<Cps>,
+    /// the first `valid` strings are queries, the rest are not (0 = all are)
+    #[serde(default)]
+    valid: usize,
     hist: Vec<SessEv>,
 }
 
@@ -128,17 +131,28 @@ fn sess_matches(e: &SessEv, got: &(Option<Vec<Option<Loc>>>, Option<Vec<String>>
 
 fn check_session(c: &SessionCase, threaded: bool, rounds: usize, out: &mut Out, stats: &mut HashMap<String, u64>) {
     let queries: Vec<String> = c.queries.iter().map(|q| cps_to_string(q)).collect();
-    let prepared: Vec<_> = match queries.iter().map(|q| parse_json_path(q)).collect::<Result<Vec<_>, _>>() {
-        Ok(p) => p,
-        Err(e) => {
-            out.mismatch(json!({"kind":"mismatch","check":"session","repr":"Value","id":c.id,"q":"","what":format!("a session query does not parse: {e}")}));
-            return;
+    // strings that hist uses in "error" events are expected NOT to parse; every other one must
+    let bad: std::collections::HashSet<usize> = if c.valid == 0 { Default::default() } else { (c.valid + 1..=c.queries.len()).collect() };
+    let mut prepared: Vec<jsonpath_rust::parser::model::JpQuery> = vec![];
+    for (n, q) in queries.iter().enumerate() {
+        match guarded(|| parse_json_path(q)) {
+            Ok(Ok(p)) => prepared.push(p),
+            Ok(Err(e)) if !bad.contains(&(n + 1)) => {
+                out.mismatch(json!({"kind":"mismatch","check":"session","repr":"Value","id":c.id,"q":q,"what":format!("a session query does not parse: {e}")}));
+                return;
+            }
+            Ok(Ok(_)) | Ok(Err(_)) | Err(_) if bad.contains(&(n + 1)) => prepared.push(parse_json_path("$").expect("root query")),   // placeholder so that indexes line up; never evaluated
+            Err(p) => {
+                out.mismatch(json!({"kind":"mismatch","check":"session","repr":"Value","id":c.id,"q":q,"what":format!("panic while parsing a session query: {p}")}));
+                return;
+            }
+            _ => unreachable!(),
         }
-    };
+    }
     let mut docs: Vec<Value> = c.docs.iter().map(|d| d.to_value()).collect();
     let describe = |n: usize| -> Vec<String> {
         c.hist.iter().take(n + 1).map(|e| if e.ev == "write" { format!("t{} write doc{} {} := {}", e.t, e.op.d, cps_to_string(&e.wpath), e.op.v.to_value()) }
-            else { format!("t{} {} {}({}) on doc{}", e.t, e.ev, e.op.e, queries.get(e.op.q.wrapping_sub(1)).cloned().unwrap_or_default(), e.op.d) }).collect()
+            else { format!("t{} {} {}({}) on doc{}", e.t, if e.ev == "error" { "returns-Err" } else { e.ev.as_str() }, e.op.e, queries.get(e.op.q.wrapping_sub(1)).cloned().unwrap_or_default(), e.op.d) }).collect()
     };
     // (a) sequential replay in the order TLC chose, one process, long-lived parsed queries and documents
     *stats.entry("session_sequential".into()).or_default() += 1;
@@ -150,6 +164,22 @@ fn check_session(c: &SessionCase, threaded: bool, rounds: usize, out: &mut Out, 
                 let found = match docs[e.op.d - 1].reference_mut(path) { Some(r) => { *r = newv; true } None => false };
                 if found != e.applied {
                     out.mismatch(json!({"kind":"mismatch","check":"session","repr":"Value","id":c.id,"q":cps_to_string(&e.wpath),"what":"write through reference_mut did not behave as specified","history":describe(n)}));
+                    return;
+                }
+            }
+            "error" => {
+                // a call with a string that is not a query returns Err through every entry point (never Ok, never a panic)
+                let doc = &docs[e.op.d - 1];
+                let q = &queries[e.op.q - 1];
+                let r = guarded(|| match e.op.e.as_str() {
+                    "query" => doc.query(q).map(|v| v.len()).map_err(|x| x.to_string()),
+                    "query_only_path" => doc.query_only_path(q).map(|v| v.len()).map_err(|x| x.to_string()),
+                    "query_with_path" => doc.query_with_path(q).map(|v| v.len()).map_err(|x| x.to_string()),
+                    _ => parse_json_path(q).map(|_| 0usize).map_err(|x| x.to_string()),
+                });
+                if !matches!(r, Ok(Err(_))) {
+                    out.mismatch(json!({"kind":"mismatch","check":"session","repr":"Value","id":c.id,"q":q,"what":"in this history a call with an invalid query string did not return Err",
+                        "entry":e.op.e,"actual":format!("{:?}", r),"history":describe(n)}));
                     return;
                 }
             }
@@ -183,13 +213,19 @@ fn check_session(c: &SessionCase, threaded: bool, rounds: usize, out: &mut Out, 
         let mut handles = vec![];
         for t in 0..nthreads {
             // thread t runs the program of spec thread (t % 2) + 1
-            let prog: Vec<SessEv> = c.hist.iter().filter(|e| e.ev == "return" && e.t == (t % 2) + 1).cloned().collect();
+            let prog: Vec<SessEv> = c.hist.iter().filter(|e| (e.ev == "return" || e.ev == "error") && e.t == (t % 2) + 1).cloned().collect();
             let (docs0, prepared, queries, barrier) = (docs0.clone(), prepared.clone(), queries.clone(), barrier.clone());
             handles.push(std::thread::spawn(move || -> Option<String> {
                 let ams: Vec<AddrMap<Value>> = docs0.iter().map(AddrMap::new).collect();
                 barrier.wait();
                 for round in 0..rounds {
                     for e in prog.iter() {
+                        if e.ev == "error" {
+                            let q = &queries[e.op.q - 1];
+                            let r = guarded(|| if e.op.e == "prepared" { parse_json_path(q).map(|_| 0usize).map_err(|x| x.to_string()) } else { docs0[e.op.d - 1].query_with_path(q).map(|v| v.len()).map_err(|x| x.to_string()) });
+                            if !matches!(r, Ok(Err(_))) { return Some(format!("thread {t} round {round}: invalid query string {q} did not return Err: {r:?}")); }
+                            continue;
+                        }
                         match sess_eval(&e.op, &docs0[e.op.d - 1], &ams[e.op.d - 1], &queries, &prepared) {
                             Ok(got) if sess_matches(e, &got) => {}
                             other => return Some(format!("thread {t} round {round}: {}({}) on doc{} returned {:?}", e.op.e, queries[e.op.q - 1], e.op.d,
@@ -207,6 +243,98 @@ fn check_session(c: &SessionCase, threaded: bool, rounds: usize, out: &mut Out, 
                 Err(_) => { out.mismatch(json!({"kind":"mismatch","check":"session","repr":"Value","id":c.id,"q":"","what":"a thread panicked during concurrent use","history":describe(c.hist.len())})); return; }
             }
         }
+    }
+}
+
+#[derive(Deserialize, Clone)]
+struct StressRow {
+    q: usize,
+    d: usize,
+    locs: Vec<Loc>,
+    paths: Vec<Cps>,
+}
+/// The table of Stress.tla: one expected result per (query, document) row, whatever the other threads do.
+#[derive(Deserialize)]
+struct StressCase {
+    id: Value,
+    docs: Vec<SVal>,
+    queries: Vec<Cps>,
+    table: Vec<StressRow>,
+}
+
+/// Many real threads, released together, first thing in a fresh process: every thread evaluates every row through every
+/// entry point, each thread starting at a different row after a common first one (so that the first use of large indexes
+/// and of long, different member names happens concurrently).
+fn check_stress(c: &StressCase, rounds: usize, out: &mut Out, stats: &mut HashMap<String, u64>) {
+    let queries: std::sync::Arc<Vec<String>> = std::sync::Arc::new(c.queries.iter().map(|q| cps_to_string(q)).collect());
+    let docs: std::sync::Arc<Vec<Value>> = std::sync::Arc::new(c.docs.iter().map(|d| d.to_value()).collect());
+    let table: std::sync::Arc<Vec<StressRow>> = std::sync::Arc::new(c.table.clone());
+    let nthreads = 8usize;
+    let barrier = std::sync::Arc::new(std::sync::Barrier::new(nthreads));
+    let entries = ["query_with_path", "query", "query_only_path", "prepared"];
+    let mut handles = vec![];
+    for t in 0..nthreads {
+        let (queries, docs, table, barrier) = (queries.clone(), docs.clone(), table.clone(), barrier.clone());
+        handles.push(std::thread::spawn(move || -> (u64, Option<String>) {
+            let ams: Vec<AddrMap<Value>> = docs.iter().map(AddrMap::new).collect();
+            // a prepared query is parsed by the thread that uses it, before the start signal (parsing is not what is raced)
+            let prepared: Vec<Option<jsonpath_rust::parser::model::JpQuery>> = queries.iter().map(|q| parse_json_path(q).ok()).collect();
+            let mut n = 0u64;
+            barrier.wait();
+            for round in 0..rounds {
+                for k in 0..table.len() {
+                    // round 0 starts with row 0 for everybody, afterwards every thread walks from its own offset
+                    let r = if round == 0 && k == 0 { 0 } else { (k + t * 3 + round) % table.len() };
+                    let row = &table[r];
+                    let e = entries[(t + round + k) % 4];
+                    if e == "prepared" && prepared[row.q - 1].is_none() { return (n, Some(format!("query {} does not parse", queries[row.q - 1]))); }
+                    let op = SessOp { k: "eval".into(), e: e.into(), q: row.q, d: row.d, v: SVal { t: "null".into(), b: false, m: 0, e: 0, f: false, s: vec![], kids: vec![], keys: vec![] } };
+                    let prep: Vec<jsonpath_rust::parser::model::JpQuery> = vec![];
+                    let got = if e == "prepared" {
+                        guarded(|| js_path_process(prepared[row.q - 1].as_ref().unwrap(), &docs[row.d - 1]).map(|rs| {
+                            (Some(rs.iter().map(|r| ams[row.d - 1].loc_of(r.clone().val()).cloned()).collect::<Vec<_>>()), Some(rs.into_iter().map(|r| r.path()).collect::<Vec<_>>()))
+                        }).map_err(|e| e.to_string())).unwrap_or_else(|p| Err(format!("panic: {p}")))
+                    } else {
+                        sess_eval(&op, &docs[row.d - 1], &ams[row.d - 1], &queries, &prep)
+                    };
+                    n += 1;
+                    let ev = SessEv { ev: "return".into(), t, op, locs: row.locs.clone(), paths: row.paths.clone(), applied: false, wpath: vec![] };
+                    match got {
+                        Ok(g) if sess_matches(&ev, &g) => {}
+                        other => {
+                            let at = |i: usize, v: &Option<Vec<String>>| v.as_ref().and_then(|x| x.get(i).cloned());
+                            let shown = match other {
+                                Ok((ls, ps)) => {
+                                    let lstr: Option<Vec<String>> = ls.map(|l| l.iter().map(|x| x.as_ref().map(loc_display).unwrap_or("<not a node of the document>".into())).collect());
+                                    let elocs: Vec<String> = row.locs.iter().map(loc_display).collect();
+                                    let epaths: Vec<String> = row.paths.iter().map(|p| cps_to_string(p)).collect();
+                                    let n_got = lstr.as_ref().map(|x| x.len()).or(ps.as_ref().map(|x| x.len())).unwrap_or(0);
+                                    let pos = (0..n_got.max(elocs.len())).find(|&i| (lstr.is_some() && at(i, &lstr) != elocs.get(i).cloned()) || (ps.is_some() && at(i, &ps) != epaths.get(i).cloned())).unwrap_or(0);
+                                    format!("{} results (expected {}); first difference at position {pos}: node {:?} path {:?}, expected node {:?} path {:?}",
+                                        n_got, elocs.len(), at(pos, &lstr), at(pos, &ps), elocs.get(pos), epaths.get(pos))
+                                }
+                                Err(e) => e,
+                            };
+                            return (n, Some(format!("thread {t} round {round}: {e}({}) on document {} returned {shown}", queries[row.q - 1], row.d)));
+                        }
+                    }
+                }
+            }
+            (n, None)
+        }));
+    }
+    *stats.entry("stress_runs".into()).or_default() += 1;
+    let mut first: Option<String> = None;
+    for h in handles {
+        match h.join() {
+            Ok((n, None)) => { *stats.entry("stress_evaluations".into()).or_default() += n; }
+            Ok((n, Some(msg))) => { *stats.entry("stress_evaluations".into()).or_default() += n; first.get_or_insert(msg); }
+            Err(_) => { first.get_or_insert("a thread panicked outside the guarded call".into()); }
+        }
+    }
+    if let Some(msg) = first {
+        out.mismatch(json!({"kind":"mismatch","check":"stress","repr":"Value","id":c.id,"q":"","threads":nthreads,
+            "what":"threads released together in a fresh process: a call returned something else than the query's nodelist on the document","detail":msg}));
     }
 }
 
@@ -579,6 +707,82 @@ fn check_eval<T: Queryable + JsonPath>(
     Some(obs)
 }
 
+/// C08/C12 "after any history": faults the CALLER's code raises in the middle of an evaluation (a panicking Queryable
+/// accessor or custom function, caught by the caller) and re-entrant use (a custom function that runs a query of its own)
+/// are history like any other; the next evaluation must still give the specification's answer.
+fn check_recover(case: &EvalCase, docj: &Value, out: &mut Out, stats: &mut HashMap<String, u64>) {
+    use verif_harness::j::J;
+    let q = cps_to_string(&case.q);
+    let jd = case.doc.to_j();
+    let vd = case.doc.to_value();
+    let sorted = case.doc.keys_sorted();
+    let d = |o: &Outcome| match o { Outcome::Ok(x) => json!({"nodes": obs_disp(x), "paths": x.iter().map(|y| y.path.clone()).collect::<Vec<_>>()}), Outcome::Err(e) => json!({"err": e}), Outcome::Panic(p) => json!({"panic": p}) };
+    // every case runs on a FRESH thread: per-thread state left behind by an earlier case cannot hide what this one leaves
+    let (fired, problems, before_d, after_d) = std::thread::scope(|sc| {
+        std::thread::Builder::new().stack_size(256 << 20).spawn_scoped(sc, || {
+            let am = AddrMap::new(&jd);
+            let vam = AddrMap::new(&vd);
+            // the first element passes the probe filter, the faults strike on a later one (part-way through a selector)
+            let host = J::Arr(vec![J::Obj(vec![("x".to_string(), J::Int(1))]), jd.clone(), J::Obj(vec![("x".to_string(), jd.clone())]), J::Arr(vec![J::Int(1), J::Int(2)]), J::Obj(vec![("x".to_string(), J::Int(1))])]);
+            let ham = AddrMap::new(&host);
+            let probe = "$[?@.x == 1]";
+            let before = observe(&jd, &am, &q);
+            let vbefore = if sorted { Some(observe(&vd, &vam, &q)) } else { None };
+            let pbefore = observe(&host, &ham, probe);
+            let same = |a: &Outcome, b: &Outcome| match (a, b) { (Outcome::Ok(x), Outcome::Ok(y)) => x == y, (Outcome::Err(_), Outcome::Err(_)) => true, _ => false };
+            let mut problems: Vec<String> = vec![];
+            let mut fired = 0u64;
+            let mut after = observe(&jd, &am, &q);
+            for fq in ["$[?@.x == 1 || boom(@)]", "$[?boom(@)]", "$..[?@.x == 1 || boom(@)]", "$[?@[?boom(@)]]", "$['__panic__']", "$..__panic__", "$[?@.x == 1 || @.__panic__ == 1]"] {
+                match guarded(|| host.query_with_path(fq).map(|r| r.len()).map_err(|e| e.to_string())) {
+                    Err(_) => fired += 1,
+                    Ok(r) => problems.push(format!("fault injection did not fire: {fq} returned {r:?}")),
+                }
+                // straight after EACH caught fault: the case's query and a filter probe answer as they did before
+                after = observe(&jd, &am, &q);
+                if !same(&before, &after) { problems.push(format!("after the caller caught a panic of its own Queryable in {fq}, the same query on the same document answers differently")); break; }
+                let pafter = observe(&host, &ham, probe);
+                if !same(&pbefore, &pafter) { problems.push(format!("after a caught panic in {fq}, {probe} answers differently: {} instead of {}", d(&pafter), d(&pbefore))); break; }
+            }
+            // re-entrancy: the custom function evaluates queries itself while the outer query is running
+            match guarded(|| host.query_with_path("$[?nested(@)]").map(|r| r.len()).map_err(|e| e.to_string())) {
+                Ok(Ok(5)) => {}
+                other => problems.push(format!("a custom function that runs a query of its own: expected all 5 elements, got {other:?}")),
+            }
+            if problems.is_empty() {
+                after = observe(&jd, &am, &q);
+                if !same(&before, &after) { problems.push("the same query answers differently after a re-entrant evaluation".to_string()); }
+            }
+            if let Some(vb) = &vbefore {
+                let va = observe(&vd, &vam, &q);
+                if !same(vb, &va) { problems.push("serde_json::Value: the same query answers differently after a caught panic in another data type".to_string()); }
+            }
+            // and against the specification
+            if let Outcome::Ok(o) = &after {
+                let ls: Vec<Option<Loc>> = o.iter().map(|x| x.loc.clone()).collect();
+                let mut got: Vec<Loc> = ls.iter().flatten().cloned().collect();
+                let inside = got.len() == ls.len();
+                got.sort();
+                let mut se = case.expect.clone();
+                se.sort();
+                if !(inside && got == se) { problems.push("after the faults the result is not the specification's".to_string()); }
+            } else {
+                problems.push(format!("after the faults the query fails: {}", d(&after)));
+            }
+            (fired, problems, d(&before), d(&after))
+        }).expect("spawn").join().unwrap_or_else(|_| (0, vec!["the recovery check itself panicked outside a guarded call".to_string()], Value::Null, Value::Null))
+    });
+    *stats.entry("recover_faults_fired".into()).or_default() += fired;
+    *stats.entry("recover".into()).or_default() += 1;
+    if !problems.is_empty() {
+        let mut m = base(case, &q, docj, "recover", "J");
+        m["what"] = json!(problems);
+        m["before"] = before_d;
+        m["after"] = after_d;
+        out.mismatch(m);
+    }
+}
+
 fn probe_docs() -> Vec<Value> {
     vec![
         json!({"a": [1.5, 1, {"a": 1, "b": 100}], "a b": [{"b": 100}], "ab": 1, "b": "a"}),
@@ -719,7 +923,25 @@ fn real_main() {
                 distinct.insert(h.finish());
             }
             let thorough = std::env::var("VERIF_TIER").map(|t| t == "thorough").unwrap_or(false);
-            check_session(&c, cases % (if thorough { 10 } else { 60 }) == 0, if thorough { 25 } else { 8 }, &mut out, &mut stats);
+            check_session(&c, cases % (if thorough { 25 } else { 60 }) == 0, if thorough { 20 } else { 8 }, &mut out, &mut stats);
+            for v in out.buf.drain(..) {
+                writeln!(w, "{}", v).unwrap();
+            }
+            continue;
+        }
+        if line.contains("\"mode\":\"stress\"") {
+            let c: StressCase = match serde_json::from_str(&line) {
+                Ok(c) => c,
+                Err(e) => {
+                    eprintln!("TOOL-ERROR bad stress line: {e}: {}", &line[..line.len().min(200)]);
+                    std::process::exit(2);
+                }
+            };
+            cases += 1;
+            nonempty += 1;
+            distinct.insert(cases);
+            let thorough = std::env::var("VERIF_TIER").map(|t| t == "thorough").unwrap_or(false);
+            check_stress(&c, if thorough { 60 } else { 12 }, &mut out, &mut stats);
             for v in out.buf.drain(..) {
                 writeln!(w, "{}", v).unwrap();
             }
@@ -853,6 +1075,9 @@ fn real_main() {
                     out.mismatch(m);
                 }
             }
+        }
+        if has("recover") {
+            check_recover(&case, &docj, &mut out, &mut stats);
         }
         for v in out.buf.drain(..) {
             writeln!(w, "{}", v).unwrap();
